@@ -25,6 +25,11 @@ NOT_STEADY = '%sServerClosing(_) | %sClientException | %sClientClosed' % (CS, CS
 
 
 def run(ctx):
+    _run_main(ctx)
+    _shared_r5(ctx)
+
+
+def _run_main(ctx):
     panics.inventory(ctx, 'R20.1', 'no undischarged panic-capable site reachable from the event dispatch', roots=['io_loop::IoLoop::run_connection'], scope=None, floor_sites=20)
 
     with ctx.rule('R20.2', 'stale wake-ups for dropped channel-0 sources and removed slots evaluate to Ok(()) with no effect', floor=7) as r:
@@ -78,3 +83,10 @@ def run(ctx):
     with ctx.rule('R20.4', 'token domain: every registered token has an arm', floor=1) as r:
         ok, why = panics.token_domain(ctx)
         r.check('token-domain', ok, ctx.site(HSE), built=why)
+
+
+def _shared_r5(ctx):
+    """Rules of other properties that are necessary conditions of this one too (found by seeding round 5)."""
+    from rules import arms as A
+    with ctx.rule('R20.8', 'a close that shares a read with the reply to the call in flight does not overflow the reply queue: two places per slot (shared with C05)', floor=1) as r:
+        A.include(ctx, r, 'c05', 'R05.3', pick=('slot/handle-pairing', 'creation-sites'))
